@@ -98,8 +98,11 @@ def build_matrix(rot_x, rot_y, sx, sy):
 def mk_fits(rng, kind=None, pointing=None, scale=None, rot=None, crpix=None, shape=None):
     """FITSWCSCorrector on a TAN WCS in CD or PC form, or the HST SIP header of the test data"""
     from tweakwcs.correctors import FITSWCSCorrector
-    kind = kind or rng.choice(['cd', 'pc', 'sip'])
+    kind = kind or rng.choice(['cd', 'pc', 'sip', 'siplin'])
     ra, dec = pointing or rand_pointing(rng)
+    siplin = kind == 'siplin'
+    if siplin:
+        kind = 'cd'
     if kind == 'sip':
         hdr = fits.Header.fromfile(os.path.join(DATA, rng.choice(['wfc3_uvis1.hdr', 'wfc3_uvis2.hdr'])))
         w = fitswcs.WCS(hdr)
@@ -128,6 +131,21 @@ def mk_fits(rng, kind=None, pointing=None, scale=None, rot=None, crpix=None, sha
     w.pixel_shape = [nx, ny]
     if rng.random() < 0.5:
         w.pixel_bounds = ((-0.5, nx - 0.5), (-0.5, ny - 0.5))
+    if siplin:
+        # SIP distortion whose value does NOT vanish at CRPIX (constant and linear terms, as lookup-table
+        # distortions of real instruments do) plus small quadratic terms
+        a = np.zeros((3, 3))
+        b = np.zeros((3, 3))
+        a[0, 0] = rng.uniform(-0.6, 0.6)
+        b[0, 0] = rng.uniform(-0.6, 0.6)
+        a[1, 0], a[0, 1] = rng.uniform(-2e-4, 2e-4), rng.uniform(-2e-4, 2e-4)
+        b[1, 0], b[0, 1] = rng.uniform(-2e-4, 2e-4), rng.uniform(-2e-4, 2e-4)
+        for (i, j) in ((2, 0), (1, 1), (0, 2)):
+            a[i, j] = rng.uniform(-2e-7, 2e-7)
+            b[i, j] = rng.uniform(-2e-7, 2e-7)
+        w.wcs.ctype = ['RA---TAN-SIP', 'DEC--TAN-SIP']
+        w.sip = fitswcs.Sip(a, b, None, None, w.wcs.crpix)
+        kind = 'siplin'
     w.wcs.set()
     info = {'kind': kind, 'crval': [ra, dec], 'scale': scale, 'rot': r, 'crpix': list(cp), 'shape': [nx, ny]}
     return FITSWCSCorrector(w), info
@@ -146,10 +164,27 @@ def mk_jwst(rng, vacorr=None, pointing=None):
     r = rng.uniform(0, 360)
     cd = build_matrix(r, r + rng.uniform(-2, 2), scale, scale)
     vacorr = (rng.random() < 0.5) if vacorr is None else vacorr
-    w = make_mock_jwst_wcs(v2ref=v2, v3ref=v3, roll=roll, crpix=[512.0, 512.0], cd=cd,
-                           crval=[ra, dec], enable_vacorr=vacorr)
+    vak = 1.0
+    if vacorr and rng.random() < 0.6:
+        # a velocity-aberration step that is NOT the identity (the repo's mock uses Identity(2))
+        import gwcs
+        from astropy.modeling.models import Scale
+        from tweakwcs.tests.helper_correctors import make_mock_jwst_pipeline
+        vak = 1.0 + rng.choice([-1, 1]) * rng.uniform(2e-5, 3e-4)
+        pipeline = make_mock_jwst_pipeline(v2ref=v2, v3ref=v3, roll=roll, crpix=[512.0, 512.0], cd=cd,
+                                           crval=[ra, dec], enable_vacorr=True)
+        frm, _tr = pipeline[1]
+        va = Scale(vak) & Scale(vak)
+        va.name = 'mock_velocity_aberration'
+        pipeline[1] = (frm, va)
+        w = gwcs.wcs.WCS(pipeline)
+        w.bounding_box = ((-0.5, 1024 - 0.5), (-0.5, 2048 - 0.5))
+        w.array_shape = (2048, 1024)
+    else:
+        w = make_mock_jwst_wcs(v2ref=v2, v3ref=v3, roll=roll, crpix=[512.0, 512.0], cd=cd,
+                               crval=[ra, dec], enable_vacorr=vacorr)
     info = {'kind': 'jwst', 'crval': [ra, dec], 'v2': v2, 'v3': v3, 'roll': roll, 'scale_arcsec': scale_as,
-            'vacorr': vacorr}
+            'vacorr': vacorr, 'va_scale': vak}
     wi = {'v2_ref': v2, 'v3_ref': v3, 'roll_ref': roll}
     return JWSTWCSCorrector(w, wi), info
 
